@@ -38,7 +38,7 @@ template <class S> void all(const S& s, uint8_t sel) {
 void vf_write_seeds(const std::string& dir) {
 	const char* texts[] = { "0", "-128", "255", "65535", "-2147483648", "18446744073709551615", "1.5", "-3.4028235e38", "1.7976931348623157e308", "true", "false", "Red", "Dark violet",
 		"2024-02-29T23:59:59.123456789Z", "1969-12-31T23:59:59Z", "2262-04-11T23:47:16.854775807Z", "1677-09-21T00:12:43Z", "P1DT2H3M4.5S", "-PT0.000000001S", "P106751DT23H47M16.854775807S", "PT1H", "P1W", "2024-01-01", "  42 ", "+7", "0x1F", "1e5", "nan", "inf", "-0",
-		"P9223372036854775807D", "-P9223372036854775808D", "PT16450570252850764905M", "PT9223372036854775807S", "-PT9223372036854775808S", "P106751991167300DT15H30M7S", "+292277026596-12-04T15:30:07Z", "-292277022657-01-27T08:29:52Z", "9223372036854775807", "-9223372036854775808", "1e400", "4.9e-324", "PT2562047788015215H", "-PT153722867280912930M", "P15250284452W" };
+		"P9223372036854775807D", "-P9223372036854775808D", "PT16450570252850764905M", "PT9223372036854775807S", "-PT9223372036854775808S", "P106751991167300DT15H30M7S", "+292277026596-12-04T15:30:07Z", "-292277022657-01-27T08:29:52Z", "9223372036854775807", "-9223372036854775808", "1e400", "4.9e-324", "PT2562047788015215H", "-PT153722867280912930M", "P15250284452W", "12e+", "7E-", "1e", "1.", "12e", "1e+5", "0e", "1E+" };
 	int n = 0; for (const char* t : texts) for (int sel = 0; sel < 34; sel += (n % 3) + 1) { std::string b; b.push_back(static_cast<char>(sel)); b.push_back(0); b += t; vfz::write_seed(dir, "seed" + std::to_string(n++), b); }
 	for (const char* t : { "12345", "2024-02-29T23:59:59Z", "PT5S" }) { for (int w = 1; w < 3; w++) { std::string b; b.push_back(static_cast<char>(n % 34)); b.push_back(static_cast<char>(w)); for (const char* p = t; *p; p++) { b.push_back(*p); for (int k = 1; k < (w == 1 ? 2 : 4); k++) b.push_back(0); } vfz::write_seed(dir, "wseed" + std::to_string(n++), b); } }
 }
